@@ -50,8 +50,42 @@ def gen_fault_walk(rng, walk):
     return lines
 
 
+def gen_cut_in_flight(rng, walk):
+    """template: messages are in flight between two or three nodes when a link control (or a fault rate) is switched on or off;
+    then the snapshot.  What the network accepted at send time stays in flight and is delivered by the simulator, whatever
+    the settings are at snapshot time."""
+    seed = rng.randrange(12)
+    nn = rng.choice([2, 3])
+    nodes = [f"n{i}" for i in range(nn)]
+    procs = [f"p{i}" for i in range(nn)]
+    lines = [f"seed {seed}", f"draws {sim_suite.draws_for(seed)}"] + [f"node {n}" for n in nodes] + [f"proc p{i} n{i}{' rec' if rng.random() < 0.5 else ''}" for i in range(nn)]
+    for i, p in enumerate(procs):
+        others = [q for q in procs if q != p]
+        sends = " ".join(f"S:m1:=x{i}{j}:{rng.choice(others)}" for j in range(rng.randint(1, 2)))
+        lines += [f"rule {p} 0 L:m0 0 {sends}", f"rule {p} 0 M:m1 0 L:m2:$"]
+    lines.append(f"net delays {rng.choice([1, 2])} {rng.choice([3, 5])}")
+    if rng.random() < 0.3:
+        lines.append(f"net dupl {sim_suite.fbits(0.5)}")
+    for p in rng.sample(procs, rng.randint(1, nn)):
+        lines.append(f"local {p} m0 =go")
+    if rng.random() < 0.4:
+        lines.append("step")
+    a = rng.choice(nodes); b = rng.choice([n for n in nodes if n != a])
+    lines.append("net " + rng.choice([f"drop_in {a}", f"drop_out {a}", f"disconnect {a}", f"disable {a} {b}", f"partition {a} / {b}",
+                                      f"drop {sim_suite.fbits(0.5)}", f"dupl {sim_suite.fbits(0.5)}", f"corrupt {sim_suite.fbits(0.5)}"]))
+    if rng.random() < 0.3:
+        lines.append("step")
+    lines += ["refenum", f"mc run {rng.choice(['dfs', 'bfs'])} {rng.choice(['full', 'disabled'])} inv=none goal=noev prune=none collect=none"]
+    for _ in range(walk):
+        lines += ["step", "proj"]
+    lines += ["steps 8", "obs"]
+    return lines
+
+
 def gen_snapshot_scenario(rng, with_steps=True, faults=True, walk=0):
     """a simulated prefix, then `mc run` (snapshot + exploration), optionally followed by a simulated walk"""
+    if rng.random() < 0.12:
+        return gen_cut_in_flight(rng, walk)
     if faults and walk and rng.random() < 0.2:
         return gen_fault_walk(rng, walk)
     r = rng.random()
@@ -88,6 +122,11 @@ def gen_snapshot_scenario(rng, with_steps=True, faults=True, walk=0):
     if with_steps:
         for _ in range(rng.randint(0, 3)):
             lines.append(rng.choice(["step", "step", "for 2"]))
+    if len(nodes) > 1 and rng.random() < 0.3:
+        # a link control switched on while messages are in flight: it decides about later sends only, the copies already
+        # accepted by the network are delivered by the simulator and must be pending deliveries of the snapshot
+        a = rng.choice(nodes); b = rng.choice([n for n in nodes if n != a])
+        lines.append("net " + rng.choice([f"drop_in {a}", f"drop_out {a}", f"disconnect {a}", f"disable {a} {b}", f"partition {a} / {b}"]))
     lines.append("refenum")
     strat = rng.choice(["dfs", "bfs"]); cache = rng.choice(["full", "disabled", "partial"])
     lines.append(f"mc run {strat} {cache} inv=none goal=noev prune=none collect=none")
@@ -214,8 +253,69 @@ def snapshot_timer_monitor(lines, out):
     return None
 
 
-def report(v, bad, name, monitor=None):
-    sim_suite.report(v, bad, [], name, monitor=monitor)
+def snapshot_flight_monitor(lines, out):
+    """C15/C04 on the implementation's own output: every copy of a message sent before the snapshot that the simulator
+    delivers after it was in flight at snapshot time, so the snapshot (the first state the exploration evaluates) holds
+    at least as many pending deliveries of that (type, payload, sender, receiver) — and exactly as many when the simulation
+    afterwards runs until no event is left (nothing crashes after the snapshot in these scenarios).  The message ids are
+    the simulator's own (`MessageSent` / `MessageReceived` entries of its log).  Scenarios with callback operations are
+    skipped (the callback may send)."""
+    from .sim_monitors import split_entries
+    if any(l.startswith("cb ") for l in lines) or any("capped" in l or "panic" in l or "skipped" in l for l in out):
+        return None
+    ops_after = []
+    seen_mc = False
+    for l in lines:
+        if l.startswith("mc "):
+            seen_mc = True
+        elif seen_mc:
+            ops_after.append(l.split()[0])
+    if not seen_mc or any(o in ("crash", "recover", "net", "local", "mc") for o in ops_after):
+        return None
+    pre_ids, snap, delivered, first, seen_run, quiet = {}, None, {}, False, False, False
+    for l in out:
+        m = re.match(r"ret=(\S*) t=([0-9a-f]{16}) tr=\[(.*)\]$", l)
+        if m:
+            for kind, f in split_entries(m.group(3)):
+                if kind == "MS" and not seen_run:
+                    pre_ids[f[1]] = (f[3], f[5])
+                elif kind == "MR" and seen_run and f[1] in pre_ids:
+                    key = (f[6], ",".join(f[7:]), f[3], f[5])
+                    delivered[key] = delivered.get(key, 0) + 1
+            if seen_run:
+                quiet = m.group(1) == "false"
+        elif l.startswith("run 0 result=ok"):
+            seen_run = first = True
+        elif l.startswith("run "):
+            return None
+        elif l.startswith("E ") and first:
+            first = False
+            em = re.search(r" E\[(.*?)\] A\[", l)
+            snap = {}
+            for tip, data, src, dst in re.findall(r"\d+:M\(([^,]+),(.*?),(p\d+),(p\d+),[NF]\d+\)", em.group(1) if em else ""):
+                snap[(tip, data, src, dst)] = snap.get((tip, data, src, dst), 0) + 1
+    if snap is None:
+        return None
+    for key, n in delivered.items():
+        if n > snap.get(key, 0):
+            return (f"after the snapshot the simulator delivered {n} cop{'y' if n == 1 else 'ies'} of message {key[0]} {key[1]} from {key[2]} to "
+                    f"{key[3]} sent before the snapshot, but the state ModelChecker::new built holds {snap.get(key, 0)} pending "
+                    f"deliver{'y' if snap.get(key, 0) == 1 else 'ies'} of it: a live in-flight copy is missing from the snapshot")
+    if quiet:
+        for key, n in snap.items():
+            if delivered.get(key, 0) < n:
+                return (f"the snapshot holds {n} pending deliver{'y' if n == 1 else 'ies'} of message {key[0]} {key[1]} from {key[2]} to {key[3]}, "
+                        f"but the simulation, run until no event was left, delivered only {delivered.get(key, 0)}: the snapshot contains a copy "
+                        f"that was not live")
+    return None
+
+
+def snapshot_monitor(lines, out):
+    return snapshot_timer_monitor(lines, out) or snapshot_flight_monitor(lines, out)
+
+
+def report(v, bad, name, monitor=None, monfail=()):
+    sim_suite.report(v, bad, list(monfail), name, monitor=monitor)
 
 
 def judge_sim_path_covered(v, scen, impl, model, name, d1_text):
